@@ -48,7 +48,7 @@ fn kzg10(ctx: &mut Ctx) {
         let expect_c = trap.g * p.evaluate(&trap.beta) + trap.gamma * rand.blinding_polynomial.evaluate(&trap.beta);
         let mut ok = g1(expect_c) == comm.0;
         ok &= blind.len() == h + 2 && !blind.last().map(|x| x.is_zero()).unwrap_or(true);
-        ok &= blind[..h + 1] == draws[..h + 1];
+        ok &= blind.len() >= h + 1 && blind[..h + 1] == draws[..h + 1];
         if !ok {
             ctx.rep.expect_fail(&id, "kzg10/blinding-structure",
                 "commitment != plain + gamma*blind(beta), or blinding polynomial is not h+2 caller-RNG draws",
